@@ -303,8 +303,7 @@ MC_SUBCHECK(b_history)
   //      (thorough only): the representative problems (otherwise the number of bit-distinct Ceres radii explodes).
   const int HMI[4]  = {1, 2, 3, 4};
   const int HTOL[3] = {0, 1, 2};
-  int maxdepth      = mc::thorough() ? 2 : 1;
-  if (const char * e = getenv("C09_DEPTH")) maxdepth = atoi(e);
+  const int maxdepth = mc::thorough() ? 2 : 1;
   std::map<StratState, Node> seen;
   std::vector<std::vector<StratState>> frontier(1);
   for (int kind = 0; kind < 2; ++kind) {
@@ -382,7 +381,6 @@ MC_SUBCHECK(b_history)
       }
     mc::report_space("C09/bfs-strategy-states", seen.size(), transitions, transitions, samples, true, ex);
   }
-  if (getenv("C09_BFSONLY")) return;
   // ---- judged spaces: every state of depth d x judged menu (history start menu, Numerical | Analytic).
   //      thorough depth 1: all problems x all 45 (max_iter, ptol, ftol) triples
   //      quick    depth 1: quick-tier problems x max_iter in {0,1,2,5,1000} x ptol=ftol in {1e-12,1e-6,1e-2}
